@@ -293,6 +293,22 @@ def range_cases():
                      st.one_of(dates, times, times, dts), st.sampled_from(['from-to', 'between-and']), st.integers(0, 3), G.refs())
 
 
+def word_ranges(step):
+    """Deterministic part: clock-time ranges with noon/midnight endpoints, several crossing midnight, under the boundary references
+    (month ends, year ends, leap days) - the end of an overnight range is built from the reference date."""
+    pairs = [([23, 0, 'ampm'], [0, 0, 'word']), ([12, 0, 'word'], [0, 0, 'word']), ([22, 0, 'ampm'], [12, 0, 'word']), ([0, 0, 'word'], [2, 0, 'ampm']),
+             ([12, 0, 'word'], [15, 0, 'ampm']), ([21, 30, 'ampm'], [0, 0, 'word']), ([23, 0, 'ampm'], [2, 0, 'ampm']), ([23, 30, '24'], [1, 15, 'ampm'])]
+
+    def gen():
+        for i, r in enumerate(G.boundary_refs()):
+            if i % step:
+                continue
+            for j, (a, b) in enumerate(pairs):
+                yield {'a': {'kind': 'time', 'time': a}, 'b': {'kind': 'time', 'time': b}, 'frame': 'from-to' if (i + j) % 2 else 'between-and',
+                       'carrier': RANGE_CARRIERS[(i + j) % 4], 'ref': r.isoformat()}
+    return gen
+
+
 def corpus_cases(frac, seed):
     def gen():
         es = corpus.entries(['DateTime'])
@@ -309,5 +325,6 @@ def parts(tier, seed):
     return [
         enum_part('durations', all_durations(37 if q else 1), run_duration, exhaustive=not q),
         hyp_part('ranges', range_cases, run_range, 2000 if q else 30000, min_shard=200),
+        enum_part('word-ranges-x-boundary-refs', word_ranges(3 if q else 1), run_range, exhaustive=True),
         enum_part('corpus-triples', corpus_cases(0.25 if q else 1, seed), run_corpus, exhaustive=not q),
     ]
